@@ -110,6 +110,10 @@ func replay(in, out string) {
 			if st != nil {
 				t.Emit(ObsEv(c, st, "k", c.Keys, nil))
 			}
+		case "render":
+			if st != nil {
+				t.Emit(RenderEv(c, st))
+			}
 		case "modes":
 			c0 := caseFromNew(map[string]interface{}{"keys": e["keys"], "vals": e["vals"], "enc": e["enc"], "opt": []interface{}{0.0, 0.0, 0.0, 0.0}})
 			t.Emit(modesEv(c0, toStrings(e["qs"])))
